@@ -27,8 +27,8 @@ META = {
     "level_note": "Trusted: Coq kernel; Go's regexp engine is modelled (semantics of the emitted fragment) and validated "
                   "by the correspondence sweep only. Bytes stand for characters: theorems are stated for ASCII patterns "
                   "and paths; non-ASCII behaviour is probed on the implementation against a character-wise matcher. "
-                  "The empty pattern list compiles to ^(?s:)$, which matches the empty path (excluded by hypothesis, "
-                  "unreachable from dawn).",
+                  "The empty pattern list compiles to the empty character class and matches nothing, the empty path "
+                  "included (fix d795852; no hypothesis about the list or the path is left in the theorems).",
     "design_ref": "DESIGN.md §6 C17",
 }
 
@@ -211,7 +211,7 @@ def run(ctx):
                               "directory on the way to a package resp. every entry below the module; "
                               "harness/overlay/util/zz_verif_c17_test.go, harness/overlay/root/zz_verif_c17_glob_test.go, "
                               "harness/overlay/root/zz_verif_c17_walk_test.go"},
-                      key="empty-set-empty-path" if name == "empty-set-matches-empty-path" else None)
+                      )
     for f in panics:
         ctx.violation("CompileGlobs panics", {"case": show(f)})
 
@@ -242,7 +242,7 @@ def run(ctx):
     ctx.coverage["correspondence"]["mismatches"] = len(mism) + len(wmism)
     ctx.log("pattern lists=%d match evaluations=%d walk cases=%d mismatches=%d+%d oracle_failures=%d"
             % (len(cases), nok * npaths, len(wcases), len(mism), len(wmism), len(oracles)))
-    real_oracles = [f for f in oracles if f[1] != "empty-set-matches-empty-path"]
+    real_oracles = oracles
     if mism and not real_oracles and not panics:
         ex = [show(cases[i]) for i in mism[:5]]
         ctx.violation("model/implementation disagree on %d pattern lists, e.g. %s" % (len(mism), ex[0]),
